@@ -34,11 +34,18 @@
 (* unique, truncate).                                                      *)
 (*                                                                         *)
 (* AsImplemented is a set of tags; each tag replaces the correct           *)
-(* behaviour by the literal transcription of what the pinned tree does:    *)
-(*   "break"    initCovering leaves its loop after the first top-level cell*)
+(* behaviour by the literal transcription of what the pinned tree did      *)
+(* before the fix: commit named with it (regression models):               *)
+(*   "break"    initCovering left its loop after the first top-level cell  *)
+(*              (fixed by e6edaf0)                                         *)
 (*   "dup"      maybeAddResult: `avoidDuplicates && !ok` and no insertion  *)
-(*   "capbound" MinDistanceToShapeIndexTarget.capBound is the antipodal    *)
-(*              cap: the search disc is unrelated to the target            *)
+(*              (fixed by 3d5e407)                                         *)
+(*   "capbound" MinDistanceToShapeIndexTarget.capBound was the antipodal   *)
+(*              cap: search disc unrelated to the target (38223d4)         *)
+(*   "nosat"    distance.sub did not saturate: once the limit was below    *)
+(*              zero an edge target still "improved" it for a crossing     *)
+(*              edge (true distance 0) and reported the stale limit as the *)
+(*              distance of that edge (fixed by 8676a07)                   *)
 (* With AsImplemented = {} TLC proves the invariants below on all scenes   *)
 (* within the bounds; with a tag TLC prints a counterexample behaviour.    *)
 (***************************************************************************)
@@ -59,14 +66,14 @@ CONSTANTS
     MinEnq,         \* minEdgesToEnqueue (10 in the code)
     MaxDisc,        \* at most this many cells in the covering of the search disc
     MaxSpan,        \* an edge lies in at most this many index cells
-    AsImplemented   \* subset of {"break", "dup", "capbound"}
+    AsImplemented   \* subset of {"break", "dup", "capbound", "nosat"}
 
 INF == 1000
 MinOf(a, b) == IF a < b THEN a ELSE b
 None == <<>>
 
 ASSUME Faces \subseteq 1..6 /\ Fanout \in 1..4 /\ Depth \in 0..3 /\ DMax < 100
-ASSUME AsImplemented \subseteq {"break", "dup", "capbound"}
+ASSUME AsImplemented \subseteq {"break", "dup", "capbound", "nosat"}
 
 (***************************************************************************)
 (* The cell tree                                                           *)
@@ -283,6 +290,8 @@ DoEdge ==
                    /\ IF scene.d[e] < limit        \* updateDistanceToEdge(edge, distanceLimit)
                       THEN \E m \in Measured(scene.d[e], limit, flags.useME) :
                               AddResult([d |-> m, s |-> 0, e |-> e])
+                      ELSE IF "nosat" \in AsImplemented /\ limit < 0 /\ scene.d[e] = 0
+                      THEN AddResult([d |-> limit, s |-> 0, e |-> e])   \* the stale limit as a distance
                       ELSE UNCHANGED <<results, limit>>
     /\ UNCHANGED <<pc, scene, opts, queue, flags>>
 
